@@ -86,8 +86,10 @@ def bearing(wind_dir, mol, closure, grid, ref, wind_speed, zm, via="single"):
         # a parameter sweep: the configuration is rebuilt (dataclasses.replace re-runs __post_init__) around the SAME
         # tower objects, first with two other directions, then with the one under test
         import dataclasses
+        cfg.met.get_step(0)             # every configuration of the sweep is inspected / used before the next one is derived
         for wd_other in (wind_dir + 120.0, wind_dir + 240.0):
             cfg = dataclasses.replace(cfg, met=dataclasses.replace(cfg.met, wind_dir=wd_other % 360.0))
+            cfg.met.get_step(0)
         cfg = dataclasses.replace(cfg, met=dataclasses.replace(cfg.met, wind_dir=wind_dir))
         tw = cfg.towers[0]
         # the tower's true position comes from its lat/lon, not from what the object carries
@@ -95,6 +97,12 @@ def bearing(wind_dir, mol, closure, grid, ref, wind_speed, zm, via="single"):
         tx, ty = latlon_to_xy(float(lat), float(lon), ref_lat, ref_lon)
         r = run_bldfm_single(cfg, tw)
         tw = type("TruePosition", (), {"x": tx, "y": ty})()
+    elif via == "reassigned":
+        # the forcing of a configuration that has been used already is changed in place (MetConfig is a plain dataclass)
+        cfg.met.wind_dir = (wind_dir + 150.0) % 360.0
+        cfg.met.get_step(0)
+        cfg.met.wind_dir = wind_dir
+        r = run_bldfm_single(cfg, tw)
     elif via == "single":
         r = run_bldfm_single(cfg, tw)
     else:
@@ -210,6 +218,9 @@ def generate(tier, rng):
     for k, wd in enumerate((30.0, 210.0) if q else range(15, 360, 45)):
         yield "bearing", dict(wind_dir=float(wd), mol=(1e9, -50.0)[k % 2], closure="MOST", grid=("square", "wide")[k % 2], ref=refs[k % 3],
                               wind_speed=4.0, zm=3.0, via="rebuilt")
+    for k, wd in enumerate((75.0, 300.0) if q else range(5, 360, 60)):
+        yield "bearing", dict(wind_dir=float(wd), mol=(-50.0, 1e9)[k % 2], closure="MOST", grid=("wide", "square")[k % 2], ref=refs[k % 3],
+                              wind_speed=4.0, zm=3.0, via="reassigned")
     for k in range(12 if q else 96):
         yield "bearing", dict(wind_dir=round(rng.uniform(0.0, 360.0), 3),
                               mol=rng.choice([1e9, -50.0, 100.0, -15.0, 400.0]),
